@@ -663,3 +663,81 @@ pub fn require_facts(part: &mut crate::util::Part, label: &str, st: &Stats, requ
         part.machinery_errors.push(format!("{}: vacuous exploration: a single distinct observation sequence over {} states", label, st.states));
     }
 }
+
+/// Digest-free companion: depth-bounded enumeration of EVERY action sequence (no state
+/// de-duplication at all), each executed from scratch with all oracles. Protects against state
+/// the digest does not see (which would make the graph search merge states that differ).
+pub fn stateless_dfs<S: System + Sync>(sys: &S, depth: usize, workers: usize) -> crate::par::Tally {
+    fn dfs<S: System>(sys: &S, path: &mut Vec<S::A>, depth: usize, t: &mut crate::par::Tally) {
+        let o = sys.run(path);
+        t.evals += 1;
+        if o.nontrivial {
+            t.nontrivial += 1;
+        }
+        t.outcome(o.obs % 4096);
+        if let Some(v) = o.violation {
+            t.violate(&v.signature, v.detail, v.replay);
+            return;
+        }
+        if path.len() >= depth {
+            return;
+        }
+        for a in o.enabled {
+            path.push(a);
+            dfs(sys, path, depth, t);
+            path.pop();
+        }
+    }
+    // prefixes of length <= 3 distribute the work
+    let mut prefixes: Vec<Vec<u64>> = vec![vec![]];
+    let mut tally0 = crate::par::Tally::default();
+    for _ in 0..3.min(depth) {
+        let mut next = vec![];
+        for p in &prefixes {
+            let path: Vec<S::A> = p.iter().map(|x| S::dec(*x)).collect();
+            let o = sys.run(&path);
+            if let Some(v) = o.violation {
+                tally0.violate(&v.signature, v.detail, v.replay);
+                continue;
+            }
+            for a in o.enabled {
+                let mut q = p.clone();
+                q.push(S::enc(a));
+                next.push(q);
+            }
+        }
+        if next.is_empty() {
+            break;
+        }
+        prefixes = next;
+    }
+    let pre = prefixes.clone();
+    let mut t = crate::par::par_enum(
+        prefixes.len() as u64,
+        workers,
+        600,
+        |i, t| {
+            let mut path: Vec<S::A> = pre[i as usize].iter().map(|x| S::dec(*x)).collect();
+            dfs(sys, &mut path, depth, t);
+            if i == 1 {
+                t.sample(json!({"prefix": format!("{:?}", path), "depth": depth}));
+            }
+        },
+        |i| format!("stateless history prefix #{}", i),
+    );
+    t.absorb(tally0);
+    t
+}
+
+pub fn record_stateless(part: &mut crate::util::Part, label: &str, depth: usize, t: &crate::par::Tally) {
+    part.add("stateless_runs", t.evals);
+    part.add("traces_validated_against_impl", t.evals);
+    part.add("transitions", t.evals);
+    part.push("stateless_companions", json!({"graph": label, "depth": depth, "runs": t.evals, "distinct_outcome_classes": t.outcomes.len()}));
+    for v in &t.violations {
+        part.violations.push(v.clone());
+    }
+    for e in &t.machinery_errors {
+        part.machinery_errors.push(format!("{}: {}", label, e));
+    }
+}
